@@ -154,6 +154,7 @@ static void registry() {
   ENTRY("EllipticFunction.funcs", 5, {0.7}) { EllipticFunction ef(0.3, 0.2); o[0] = ef.F(a[0]); o[1] = ef.E(a[0]); o[2] = ef.Pi(a[0]); o[3] = ef.Ed(a[0] * 50); o[4] = ef.Einv(a[0]); } END;
   ENTRY("EllipticFunction.sncndn", 3, {0.7}) { EllipticFunction ef(0.3, 0.2); ef.sncndn(a[0], o[0], o[1], o[2]); } END;
   ENTRY("EllipticFunction.Carlson", 4, {1.0, 2.0, 3.0}) { o[0] = EllipticFunction::RF(a[0], a[1], a[2]); o[1] = EllipticFunction::RD(a[0], a[1], a[2]); o[2] = EllipticFunction::RG(a[0], a[1], a[2]); o[3] = EllipticFunction::RJ(a[0], a[1], a[2], 2.5); } END;
+  ENTRY("EllipticFunction.Carlson2", 3, {1.0, 2.0}) { o[0] = EllipticFunction::RF(a[0], a[1]); o[1] = EllipticFunction::RG(a[0], a[1]); o[2] = EllipticFunction::RC(a[0], a[1]); } END;
   ENTRY("NormalGravity.Gravity", 3, {40.0, 1000.0}) { o[0] = NormalGravity::WGS84().Gravity(a[0], a[1], o[1], o[2]); } END;
   ENTRY("NormalGravity.U", 4, {7.0e6, 1.0e5, 2.0e6}) { o[0] = NormalGravity::WGS84().U(a[0], a[1], a[2], o[1], o[2], o[3]); } END;
   ENTRY("Math.angles", 6, {33.0}) { o[0] = Math::AngNormalize(a[0]); o[1] = Math::LatFix(a[0]); o[2] = Math::AngRound(a[0]); Math::sincosd(a[0], o[3], o[4]); o[5] = Math::tand(a[0]); } END;
